@@ -156,7 +156,9 @@ class World(object):
                     with open(p, 'w', encoding='utf-8') as f:
                         f.write(ch)
                     paths.append(p)
-                return xtuml.load_metamodel(paths if len(paths) > 1 else paths[0]), loader
+                m = xtuml.load_metamodel(paths if len(paths) > 1 else paths[0])
+                m.id_generator = make_generator(self.plan)     # load_metamodel offers no choice of generator
+                return m, loader
             else:
                 raise SystemExit('unknown route %r' % route)
             return loader.build_metamodel(make_generator(self.plan)), loader
@@ -414,7 +416,7 @@ class World(object):
             m, _ = self.load_texts(chunks, how.get('route', 'input'), rnd)
             self.adopt(m)
             ev['schema'] = self.schema_projection()
-            if self.genkind == 'int' and how.get('route') != 'load_metamodel':
+            if self.genkind == 'int':
                 ev['g'] = self.m.id_generator.peek() - 1
             return ev, 'none'
         if name == 'SaveLoad':
@@ -431,7 +433,7 @@ class World(object):
             l2.input(t1)
             t2 = xtuml.serialize(l2.build_metamodel(xtuml.IntegerGenerator()))
             ev['fix'] = 'yes' if t1 == t2 else 'no'
-            if self.genkind == 'int' and how.get('route') != 'load_metamodel':
+            if self.genkind == 'int':
                 ev['g'] = self.m.id_generator.peek() - 1
             return ev, 'none'
         if name == 'NewRow':
